@@ -13,6 +13,9 @@
 //	           same data with numbers typed int iff no '.', 'e', 'E' (and within int64), float otherwise
 //	module     (searcher) the json module's encode/decode as seen by compiled scripts agree with the
 //	           direct calls
+//
+// deep.go adds, on every seed, texts and values nested around the scanner's maxNestingDepth (10000) to
+// the dec / dec-oracle and enc / roundtrip / enc-oracle streams.
 package main
 
 import (
@@ -1156,7 +1159,9 @@ func main() {
 	res.Rule = "values: random trees over undefined/bool/int/float/string/array/map (immutable variants included) with boundary ints and floats, " +
 		"control characters, quotes, backslashes, 2/3/4-byte runes; non-trivial when the value holds a float, a string needing an escape, a " +
 		"non-ASCII string, a nested container or an int beyond 2^53. byte strings: generated valid texts (every escape, surrogate forms, raw " +
-		"invalid UTF-8, every number form), 1-2 byte mutations of them, JSON-alphabet and arbitrary bytes, deep nesting; non-trivial when " +
+		"invalid UTF-8, every number form), 1-2 byte mutations of them, JSON-alphabet and arbitrary bytes, deep nesting, and on every seed " +
+		"arrays/objects/mixtures nested 9999, 10000, 10001, 10002 and about 20000 deep (closed, unclosed, garbage inside or behind) plus values " +
+		"nested exactly 10000 deep through Encode/Decode (the scanner's maxNestingDepth, O34); non-trivial when " +
 		"encoding/json accepts the text or the first error lies beyond the first byte. distinct by hash of the canonical value / of the bytes"
 
 	if f.Replay != "" {
@@ -1199,6 +1204,11 @@ func main() {
 			}
 		}
 	}
+	// nesting around maxNestingDepth = 10000 (O34), on every seed: texts through dec + dec-oracle, values
+	// nested exactly at the limit through enc + roundtrip + enc-oracle
+	deepR := rng.Fork()
+	nNestTexts := checkDeepNesting(deepR, thorough)
+	nNestValues := checkDeepValues(deepR, thorough)
 	flushAll()
 	nMod := f.Scale(3000, 40000)
 	for i := 0; i < nMod; i++ {
@@ -1211,8 +1221,10 @@ func main() {
 		}
 		checkModule(genValue(r, 1+r.Intn(3), genOpts{floats: true}), inp)
 	}
+	checkDeepModule(rng.Fork())
 	flushAll()
-	res.Extra = map[string]interface{}{"deep_nesting_max": maxDeep}
+	res.Extra = map[string]interface{}{"deep_nesting_max": maxDeep, "nest_limit": nestLimit, "nest_limit_texts": nNestTexts,
+		"nest_limit_values": nNestValues}
 	res.Write(f.Out)
 }
 
